@@ -114,10 +114,15 @@ type Exec struct {
 	Horizon  int
 	ObsHash  uint64
 	Switches int
+	runLen   int      // consecutive steps of the running thread
 	expect   []Choice // recorded choices of the parent execution for the determinism guard
 	// Notes are soft violations recorded without unwinding (e.g. from inside callbacks).
 	Notes []Verdict
 }
+
+// SpinLimit is the number of consecutive steps after which a running thread is deprioritised
+// in favour of other enabled threads (fair scheduling of yield-free busy-wait loops).
+var SpinLimit = 2000
 
 // X is the active execution; nil means free-running mode (all shims pass through).
 var X *Exec
@@ -261,9 +266,14 @@ func (x *Exec) stuckKind() string {
 func (x *Exec) sched(me *Thread) {
 	x.Steps++
 	if x.Horizon > 0 && x.Steps > x.Horizon {
-		x.fail("horizon", "step horizon exceeded: "+x.describeBlocked())
+		x.fail("hang", "step horizon exceeded, the execution does not terminate: "+x.describeBlocked())
 	}
 	e := x.enabledSet(me)
+	// Fairness for busy-wait loops that contain no yield (e.g. retry-until-unlinked): a thread that has
+	// run SpinLimit consecutive steps while others are enabled is treated as if it had yielded.
+	if len(e) > 1 && e[0] == me && x.runLen > SpinLimit {
+		e = e[1:]
+	}
 	if len(e) == 0 {
 		// nobody enabled: a thread in WaitIdle becomes enabled now
 		if t := x.idleWaiter(); t != nil {
@@ -278,8 +288,10 @@ func (x *Exec) sched(me *Thread) {
 	next := e[idx]
 	x.ObsHash = (x.ObsHash ^ uint64(next.ID)<<8 ^ uint64(next.pending.Kind)) * 1099511628211
 	if next == me {
+		x.runLen++
 		return
 	}
+	x.runLen = 0
 	x.Switches++
 	x.cur = next
 	next.wake <- struct{}{}
